@@ -4,7 +4,6 @@ use super::common::*;
 use crate::case::{Case, Sep};
 use crate::gen::text::{Class, Mix};
 use crate::json::J;
-use crate::oracle::ansi::clean_ansi;
 use crate::oracle::words::{ascii_boundaries, index_map, unicode_boundaries_stripped};
 use crate::rng::Rng;
 use crate::run::{Obs, Prop, RunCfg, Verdict, Worker};
@@ -80,7 +79,7 @@ pub fn check(case: &Case, obs: &mut Obs) -> Verdict {
     if pos != line.len() {
         return Verdict::Violated(format!("words cover {} of {} bytes", pos, line.len()));
     }
-    let clean = clean_ansi(line);
+    let clean = crate::oracle::ansi::wellformed_or_two_char(line);
     match o.sep {
         Sep::Ascii => {
             let want = ascii_boundaries(line);
@@ -145,7 +144,7 @@ pub fn check(case: &Case, obs: &mut Obs) -> Verdict {
 
 fn extra(cfg: &RunCfg, w: &mut Worker) {
     // exhaustive short lines over a separator-relevant alphabet
-    let alphabet: &[&str] = &["a", " ", "-", "\u{ad}", "你", "\u{1b}[m", ")", "\u{200b}"];
+    let alphabet: &[&str] = &["a", " ", "-", "\u{ad}", "你", "\u{1b}[m", ")", "\u{200b}", ".", "\u{1b}7"];
     let max = if cfg.thorough { 6 } else { 4 };
     let threads = cfg.threads.max(1);
     let mut idx = 0usize;
@@ -174,7 +173,7 @@ fn extra(cfg: &RunCfg, w: &mut Worker) {
     if w.id == 0 {
         w.note_exhaustive(
             "short-lines",
-            &format!("all lines of <= {} tokens over {{a,' ','-',SHY,你,ESC[m,')',ZWSP}} x both separators (sharded; this worker ran {})", max, n),
+            &format!("all lines of <= {} tokens over {{a,' ','-',SHY,你,ESC[m,')',ZWSP,'.',ESC 7}} x both separators (sharded; this worker ran {})", max, n),
             crate::gen::text::enumerate_count(alphabet.len(), max) as u64 * 2,
         );
     }
